@@ -74,8 +74,15 @@ def run(oracle, args=None, repo='/repo', seed=0, timeout=600):
             env['RUSTFLAGS'] = '--cfg rahix_profirust_verif -Awarnings'
             env['VERIF_SEED'] = str(seed)
             b = subprocess.run(['cargo', 'build', '--offline', '--quiet'], cwd=drv, env=env, capture_output=True, text=True, timeout=timeout)
+            public_only = False
             if b.returncode != 0:
-                return {'status': 'build-failed', 'results': [], 'log': b.stderr[-4000:], 'wall_s': time.time() - t0}
+                # the oracles that reach into private items no longer build (restructured code): fall back to the
+                # public-API oracles only (the private ones then answer 'unknown oracle')
+                env['RUSTFLAGS'] = '-Awarnings'
+                b2 = subprocess.run(['cargo', 'build', '--offline', '--quiet'], cwd=drv, env=env, capture_output=True, text=True, timeout=timeout)
+                if b2.returncode != 0:
+                    return {'status': 'build-failed', 'results': [], 'log': b.stderr[-4000:], 'wall_s': time.time() - t0}
+                public_only = True
             exe = os.path.join(TARGET, 'debug', 'verif-native')
             oracles = oracle if isinstance(oracle, list) else [oracle]
             results = []
@@ -95,12 +102,16 @@ def run(oracle, args=None, repo='/repo', seed=0, timeout=600):
                             got = True
                         except Exception:
                             pass
+                if not got and p.returncode == 2 and 'unknown oracle' in p.stderr:
+                    # oracle reaches into private items and was left out of the public-only fallback build
+                    results.append({'oracle': name, 'status': 'unavailable', 'detail': 'oracle not built (private items no longer match): ' + b.stderr[-600:]})
+                    continue
                 if not got:
                     # a panic in the real code is itself an observation
                     results.append({'oracle': name, 'status': 'crash' if p.returncode != 0 else 'no-result',
                                     'exit': p.returncode, 'stderr': p.stderr[-1500:], 'input': [str(a) for a in oargs]})
                 log += p.stdout[-2000:] + p.stderr[-2000:]
-            return {'status': 'ok', 'results': results, 'log': log, 'wall_s': time.time() - t0}
+            return {'status': 'ok', 'results': results, 'log': log, 'wall_s': time.time() - t0, 'public_only': public_only}
         finally:
             shutil.rmtree(SRC, ignore_errors=True)
 
